@@ -49,6 +49,7 @@ type Solver struct {
 	Stats   *SolverStats
 	log     io.Writer
 	dead    bool
+	optSet  bool
 }
 
 type SolverStats struct {
@@ -114,6 +115,7 @@ func (s *Solver) start() {
 	s.tblDef = map[string]bool{}
 	s.ufDef = map[string]bool{}
 	s.dead = false
+	s.optSet = false
 	if s.kind == SolverCVC5 {
 		s.send("(set-logic ALL)\n")
 	}
@@ -379,7 +381,16 @@ func (s *Solver) Check(assertions []*Term, wantModel bool) (Result, map[string]*
 	s.defined = map[int]bool{}
 	s.tblDef = map[string]bool{}
 	s.ufDef = map[string]bool{}
-	s.send("(set-option :produce-models true)\n")
+	// small queries go through push/pop (z3's incremental core answers them in ~1 ms);
+	// large ones use a fresh context so that z3 applies its bit-blasting tactic pipeline.
+	incremental := s.kind != SolverCVC5 && len(s.ts.ConeCut(s.cut, as...)) < 1500
+	if !s.optSet {
+		s.send("(set-option :produce-models true)\n")
+		s.optSet = true
+	}
+	if incremental {
+		s.send("(push 1)\n")
+	}
 	s.define(as)
 	var sb strings.Builder
 	for _, a := range as {
@@ -462,9 +473,14 @@ func (s *Solver) Check(assertions []*Term, wantModel bool) (Result, map[string]*
 		}
 	}
 	if !s.dead {
-		s.send("(reset)\n")
-		if s.kind == SolverCVC5 {
-			s.send("(set-logic ALL)\n")
+		if incremental {
+			s.send("(pop 1)\n")
+		} else {
+			s.send("(reset)\n")
+			s.optSet = false
+			if s.kind == SolverCVC5 {
+				s.send("(set-logic ALL)\n")
+			}
 		}
 	}
 	s.Stats.add(res, time.Since(start), isErr)
